@@ -97,6 +97,18 @@ def other_cases(rng, thorough):
         out.append("Pf %s i:%s i:%s i:%s" % (fmt([ord(x) for x in "%*.*d"]), fmt(le8(w)), fmt(le8(w - 1)), fmt(le8(-7))))
         out.append("Pf %s i:%s i:%s" % (fmt([ord(x) for x in "%*d"]), fmt(le8(-w)), fmt(le8(7))))
     out.append("Pf %s i:%s" % (fmt([ord(x) for x in "%70000d"]), fmt(le8(5))))
+    # two directives in one format string: what the first one parsed (precision, width, flags, length modifier) must not leak into the
+    # second - in particular when the second takes its precision / width from a negative * argument (= "not given")
+    for c1 in "dxsuo":
+        for first in ("%.8" + c1, "%12.5" + c1, "%-#9.3" + c1, "%+08" + c1, "%ll" + c1 if c1 != "s" else "%.2s"):
+            a1 = ("s:%s:1" % fmt([104, 101, 108, 108, 111, 33, 33])) if c1 == "s" else "i:%s" % fmt(le8(rng.choice([255, 42, 7, 123456])))
+            for c2 in "diuoxX":
+                for second, extra in (("%.*" + c2, [-1]), ("%.*" + c2, [-5]), ("%*" + c2, [-6]), ("%" + c2, []), ("%.*" + c2, [2])):
+                    if rng.random() < (1.0 if thorough else 0.35):
+                        f = first + "|" + second
+                        args = [a1] + ["i:%s" % fmt(le8(x)) for x in extra] + ["i:%s" % fmt(le8(rng.choice([42, 5, 300, -17])))]
+                        if len(args) <= 3:
+                            out.append("Pf %s %s" % (fmt([ord(x) for x in f]), " ".join(args)))
     # precisions written with leading zeros and with ten and more digit characters (a digit counter instead of a value bound), and
     # widths of many digit characters after a non-zero first digit
     for zeros in (1, 2, 8, 9, 10, 11, 15, 30):
